@@ -128,6 +128,7 @@ def run(ck):
     ck.rule("A", "prover and verifier agree on FRI layer count, position folding and per-layer domain reduction")
     c15.remainder_exemption(ck, prog)
     c15.agreement(ck, prog)
+    c15.layer_count_rule(ck, prog)
     # transcript agreement: both sides are checked against the one documented event order (rules E1.*/E3.* of C04)
     c04.run(ck)
     ck.explanation = (
